@@ -368,6 +368,12 @@ fn run_fc(c: &FcCase) -> Vec<String> {
         // up as a disagreement with a full trace instead of stopping the case.
     }
 
+    // For every waiter: was each counter below its limit at some instant since the waiter started?  (It may have
+    // loaded the two at different instants - that is allowed - but it cannot have observed a value that never was.)
+    let mut saw_msgs = vec![msgs < c.max_msgs; n];
+    let mut saw_bytes = vec![bytes < c.max_bytes; n];
+    let mut unsafe_reported = vec![false; n];
+
     for &entry in &c.sched {
         let runnable = entry < n as u64 && matches!(s.pos[entry as usize], Pos::Gate(_));
         if !runnable {
@@ -392,6 +398,22 @@ fn run_fc(c: &FcCase) -> Vec<String> {
             Err(e) => {
                 lines.push(stop_line(e));
                 return lines;
+            }
+        }
+        for w in 0..n {
+            if matches!(c.threads[w], Kind::Waiter) {
+                let done = s.pos[w].name() == "done";
+                if !done {
+                    saw_msgs[w] |= msgs < c.max_msgs;
+                    saw_bytes[w] |= bytes < c.max_bytes;
+                } else if !(saw_msgs[w] && saw_bytes[w]) && !unsafe_reported[w] {
+                    unsafe_reported[w] = true;
+                    lines.push(format!(
+                        "!UNSAFE {} returned although {} never was below its limit while it waited",
+                        w,
+                        if !saw_bytes[w] { "the byte count" } else { "the message count" }
+                    ));
+                }
             }
         }
     }
